@@ -9,6 +9,8 @@ from .contract import (  # noqa: F401
     Const,
     Contract,
     Custom,
+    Derived,
+    Scaled,
     Int,
     Obj,
     OneOf,
@@ -36,6 +38,7 @@ from .spec import (  # noqa: F401
     Or,
     approx_eq,
     ceil,
+    div,
     exists,
     floor,
     forall,
